@@ -823,3 +823,11 @@ def run(ctx):
     ctx.floor('R4.3', 30)
     r4_4(ctx)
     ctx.floor('R4.4', 8)
+    # R4.5 = C12/R12.7: the quantified-set actions (`N of`, `all/any/none of`, with `in`/`at`)
+    # raise the "a string must match first" pre-filter under one and the same condition
+    from .C12 import r12_7
+    sub = type(ctx)(ctx.prop, ctx.tier, ctx.prog, ctx.fixture)
+    r12_7(sub)
+    for o in sub.obls:
+        ctx.ob('R4.5', o['key'], o['ok'], o['where'], o['detail'], o['data'])
+    ctx.floor('R4.5', 3)
